@@ -13,11 +13,12 @@ CLAIMED = {
  "C02": ("the real parseEvents run on every history derivable from the unit grammar of the property (tx closed by XID / COMMIT / ROLLBACK, DDL, autocommitted rows, statement-format DML in and out of BEGIN..COMMIT, rotation) with U<=2 units (thorough 3) and up to 2 ignorable events (GTID, previous-GTIDs, unknown event type, SAVEPOINT/flush/empty statements) inserted at every position: one handler call per committed unit, exactly at the moment its commit event has been read from the channel, with exactly its changes in order (empty for ROLLBACK); plus GetStatementCategory for every casing of all 12 keywords (symbolic case bits) and one-letter non-keywords", "DESIGN.md 3/C02"),
  "C03": ("parseEvents on grammar-generated histories (U<=2, thorough 3) with SYMBOLIC 32-bit next-position fields, 64-bit rotate offsets and start offset: every delivered label proved equal to previous end label / initial position / rotation target, end label = commit event's next-position in the current file; two-run self-composition: a fresh streamer started at the end label of any delivered transaction k on the stream a master serves from there (fake ROTATE, FDE, suffix) delivers exactly transactions k+1.. with identical contents and labels", "DESIGN.md 3/C03"),
  "C04": ("parseEvents on grammar-generated histories (U<=2; thorough 3) with one fault of each kind at every event index (handler rejects transaction j, mapper error, mapper column-count mismatch, invalid event, RAND/INTVAR/ROWS_QUERY event, accessor decode error, channel closed, context cancelled incl. both outcomes of the racing select): the returned position (which Stream stores for the next attempt) equals the end label of the last ACCEPTED transaction moved by rotations consumed after it, and no transaction is delivered after a failure. Stream's own write-back/attempt loop is covered by C07's harness when claimed", "DESIGN.md 3/C04"),
+ "C08": ("behavioural overwrite-then-observe harnesses on the real code: (a) readBinlogEvent with a scripted connection that hands out windows of ONE reused receive buffer (packets 8..32 bytes; thorough 4100): an event's bytes (all symbolic) are unchanged after the next packet overwrites the buffer, writes through one event reach neither the buffer nor another event; (b) CellBytes for 13 cell shapes incl. zero and non-zero TIMESTAMP/TIMESTAMP2: after every byte of a returned value is overwritten with arbitrary bytes, decoding the same cell from another buffer gives the reference result and neighbouring bytes of the event buffer are intact; (c) getValuesFromRow on 6 column sets, 2 rows: overwriting any delivered value changes no other delivered value", "DESIGN.md 3/C08"),
  "C09": ("(a) cellLength == bytes consumed by CellBytes for every supported type over its whole metadata domain (metadata and cell bytes symbolic; NEWDECIMAL via concrete (p,s)); (b) binlogEvent.Rows on events from an independent writer: row count, presence bitmaps, NULL bitmaps and every before/after image byte-for-byte, images consumed exactly by the per-type length rule, for write/update/delete, v1/v2, 4/6-byte table ids, extra data, all presence/NULL patterns of 2-3 column tables and pattern-sampled 9/17-column tables, 0..2 rows", "DESIGN.md 3/C09"),
  "C10": ("CellBytes numeric cases against an independent two's-complement / unsigned reference for the ENTIRE 8/16/24/32/64-bit domains in both signedness modes (text must be canonical decimal that parses to the exact value), FLOAT/DOUBLE round-trip through strconv's documented shortest-representation contract, YEAR, BIT(1..64) with symbolic metadata, ENUM 1-2 bytes, SET 1..8 bytes; every cell byte is a solver variable", "DESIGN.md 3/C10"),
  "C11": ("CellBytes NEWDECIMAL for (p,s) pairs (quick: all p<=20 plus group-boundary precisions, 278 pairs; thorough: all 1580 valid pairs): every storage byte symbolic, every representable value; the text is scanned ('-', canonical integer digits, '.', exactly s digits) and every 9-digit group proved equal to the reference from MySQL decimal.c; cellLength agreement included", "DESIGN.md 3/C11"),
  "C12": ("CellBytes DATE/NEWDATE, old TIME/DATETIME/TIMESTAMP, TIMESTAMP2/DATETIME2/TIME2 with fsp 0..6: output text scanned field by field (separators, widths, digits) and every numeric field proved equal to a reference decoder written from MySQL's my_time.c, for all cell bytes denoting valid values (all 2^24..2^48 raw values symbolic); TIMESTAMP fields are the Local-zone calendar fields (uninterpreted functions of (zone, instant))", "DESIGN.md 3/C12"),
- "C13": ("CellBytes for VARCHAR/VAR_STRING/STRING/TINY..LONG BLOB/GEOMETRY with symbolic metadata (decides 1..4 prefix bytes), symbolic prefix and payload in buffers of 40 and 300 bytes (thorough 1200): value is non-nil, has exactly the logged length and its i-th byte is the logged byte for a universally quantified index i; consumed = prefix+length; cellLength agrees", "DESIGN.md 3/C13"),
+ "C13": ("CellBytes for VARCHAR/VAR_STRING/STRING/TINY..LONG BLOB/GEOMETRY with symbolic metadata (decides 1..4 prefix bytes), symbolic prefix and payload in buffers of 40 and 300 bytes (thorough 1200): value is non-nil, has exactly the logged length and its i-th byte is the logged byte for a universally quantified index i; consumed = prefix+length; cellLength agrees; getValuesFromRow/getIdentifiesFromRow on 2-3 (thorough 4) column tables with every presence/NULL pattern and empty/non-empty values: absent => IsEmpty && Data==nil, NULL => !IsEmpty && Data==nil, empty string => non-nil empty data, otherwise the logged bytes", "DESIGN.md 3/C13"),
  "C14": ("printJSONData / CellBytes(TypeJSON) on documents laid out by an independent binary-JSON writer (after json_binary.cc) in the small and the large format: (a) every scalar kind (literals, int16/uint16/int32/uint32/int64/uint64 over their full ranges, double via strconv's contract, strings, opaque DATE/TIME incl. both signs/DATETIME packed fields, opaque DECIMAL) at top level, inlined and out-of-line inside arrays and objects; (b) all document structures of depth <= 2 (thorough 3), fan-out <= 2 over cheap scalars and nested arrays/objects: rendered text proved byte-equal to a reference rendering of the document (keys, values, order, nesting)", "DESIGN.md 3/C14"),
  "C15": ("binlogEvent.TableMap/TableID on events from an independent writer: names (0..255 bytes), flags, 4/6-byte table ids, 1-2 (thorough 3) columns over ALL pairs of the 31 supported types with symbolic metadata bytes (byte order per type), nullability bits, trailing optional-metadata bytes, and 250/251/252 (thorough 300/600) columns with multi-byte column counts. Second half (VH_C15_Cache): parseEvents with two table ids, re-announcements with changed column types inside and across transactions: rows attributed to the announced table, decoded with the most recent table map, column names from the mapper by ordinal, mapper consulted once per id with the announced names; column-count mismatch -> error (C04 fault kind 2)", "DESIGN.md 3/C15"),
  "C16": ("header accessors and Format/Rotate/Query/IntVar/Rand on events from an independent writer with every field symbolic: format description (server version 0/5/50 bytes, header-size tables of 27/38 (thorough 165/255) entries, checksum byte, version!=4 and header length<19 rejected), rotate (64-bit position, names 0..16 bytes), query (all MySQL-order subsets of status variables 0,1,6|2,3,4,5,7,8..20 with arbitrary payloads, db 0/3 (thorough ..255) bytes, SQL 0/5 (thorough 70000) bytes, charset iff Q_CHARSET_CODE), intvar/rand; each for checksum off / CRC32 (4 arbitrary trailing bytes) / undefined and for both flavors' StripChecksum", "DESIGN.md 3/C16"),
